@@ -36,9 +36,9 @@ import (
 )
 
 const (
-	sbSuffix = "sb.dns.adguard.com."
-	pcSuffix = "pc.dns.adguard.com."
-	cacheTTL = 10 * time.Minute
+	sbSuffix   = "sb.dns.adguard.com."
+	pcSuffix   = "pc.dns.adguard.com."
+	defaultTTL = 10 * time.Minute
 	// smallCache holds one two-hash entry (74 bytes) plus a few negative ones
 	// (10 bytes each), or two one-hash entries (42 bytes each).
 	smallCache = 100
@@ -49,6 +49,9 @@ const (
 	// bytes).
 	microCache = 30
 )
+
+// cacheTTL is the cache time of the scenario being executed (set by exec).
+var cacheTTL = defaultTTL
 
 var cacheSizes = []uint{0, smallCache, tinyCache, microCache}
 
@@ -187,6 +190,16 @@ type scenario struct {
 	// Pre is a fixed history that precedes every explored one (the search
 	// then starts from a non-initial state).
 	Pre []op
+	// NoCache: the configured cache time is zero, every entry is expired as
+	// soon as it is written.
+	NoCache bool
+}
+
+func (sc *scenario) ttl() time.Duration {
+	if sc.NoCache {
+		return 0
+	}
+	return defaultTTL
 }
 
 func (sc *scenario) ops(quick bool) (ops []op) {
@@ -206,8 +219,12 @@ func (sc *scenario) ops(quick bool) (ops []op) {
 	for _, n := range names {
 		ops = append(ops, op{Sc: sc.Label, Kind: "chk", Name: n})
 	}
-	secs := int(cacheTTL / time.Second)
-	for _, s := range []int{1, secs - 1, secs + 1} {
+	secs := int(sc.ttl() / time.Second)
+	advs := []int{1, secs - 1, secs + 1}
+	if secs == 0 {
+		advs = []int{1, 2}
+	}
+	for _, s := range advs {
 		ops = append(ops, op{Sc: sc.Label, Kind: "adv", Secs: s})
 	}
 	if len(sc.Pre) == 0 && !sc.Switch && sc.Size == 0 {
@@ -247,6 +264,11 @@ func buildScenarios() (out []*scenario) {
 		for _, pk := range []string{packSingle, packEach} {
 			out = append(out, &scenario{Label: fmt.Sprintf("switch:pack=%s:cache=%d", pk, sz), Switch: true, DB: dbByKey["empty"], Pack: pk, Size: sz})
 		}
+	}
+	// A cache time of zero: nothing may be answered from an entry written at an
+	// earlier instant.
+	for _, pk := range []string{packSingle, packEach} {
+		out = append(out, &scenario{Label: fmt.Sprintf("switch-cache-time-0:pack=%s:cache=0", pk), Switch: true, NoCache: true, DB: dbByKey["empty"], Pack: pk, Size: 0})
 	}
 	// The parent domain was checked while unlisted and has been listed since:
 	// entries of one name's prefixes now expire at different instants.
@@ -349,6 +371,7 @@ func groupsOf(x exch, suffix string) int {
 }
 
 func (sc *scenario) exec(hist []op) (st lib.Step) {
+	cacheTTL = sc.ttl()
 	vtime.SetVirtual(base)
 	svc := &service{suffix: sbSuffix, db: sc.DB, pack: sc.Pack}
 	chk := newChecker(svc, sc.Size)
@@ -842,6 +865,7 @@ func run(c *lib.Ctx) {
 	}
 	c.Note("databases", strings.Join(dbn, ", "))
 	runStateless(c)
+	phaseSchedules(c)
 
 	labels := make([]string, 0, len(scenByLabel))
 	for l := range scenByLabel {
@@ -852,7 +876,7 @@ func run(c *lib.Ctx) {
 	if !c.Quick() {
 		depthFixed, depthSwitch = 6, 6
 	}
-	c.Note("bfs_bounds", fmt.Sprintf("%d scenarios (25 databases x 2 answer packings x cache size {unlimited,%dB,%dB,30B} with a fixed database (the one database whose answers span two prefixes: unlimited cache only), 6 with database switches, 2 more that start after [check(parent); parent gets listed]); operations check(name) over the pool, advance clock by {1s, CacheTime-1s, CacheTime+1s}, the next exchange with the service fails (fixed database, unlimited cache), switch database (switch scenarios only); depth %d (fixed) / %d (switch)", len(labels), smallCache, tinyCache, depthFixed, depthSwitch))
+	c.Note("bfs_bounds", fmt.Sprintf("%d scenarios (25 databases x 2 answer packings x cache size {unlimited,%dB,%dB,30B} with a fixed database (the one database whose answers span two prefixes: unlimited cache only), 6 with database switches, 2 with database switches and a cache time of zero, 2 more that start after [check(parent); parent gets listed]); operations check(name) over the pool, advance clock by {1s, CacheTime-1s, CacheTime+1s}, the next exchange with the service fails (fixed database, unlimited cache), switch database (switch scenarios only); depth %d (fixed) / %d (switch)", len(labels), smallCache, tinyCache, depthFixed, depthSwitch))
 	// Scenarios are dealt to shard processes; inside one scenario the BFS is
 	// single-threaded because the virtual clock is process-global.
 	shardI, shardN := c.ShardI, c.ShardN
@@ -883,6 +907,9 @@ func run(c *lib.Ctx) {
 func replay(c *lib.Ctx, raw json.RawMessage) string {
 	setup()
 	defer vtime.SetVirtual(time.Time{})
+	if msg, ok := replaySchedules(raw); ok {
+		return msg
+	}
 	s := strings.TrimSpace(string(raw))
 	if strings.HasPrefix(s, "[") {
 		var hist []op
@@ -934,7 +961,7 @@ func main() {
 				"distinct_outcomes":             m.Distinct["outcomes"],
 				"scenarios_run":                 m.Counters["scenarios_run"],
 				"max_depth":                     m.Maxes["max_depth"],
-				"rule": "BFS over check(name)/advance-clock(/switch-database) histories on one real hashprefix.Checker per history, scripted recording upstream; state = (scenario, reflection dump of the prefix cache with expiry relative to the virtual clock, LRU order when the cache is size-limited, live database versions in switch scenarios). Every check: question = 4-hex groups + suffix, each group the 2-byte prefix of an allowed suffix-name; verdict = reference (64-hex strings of the database intersected with the allowed names) = verdict of a fresh Checker on the same database at the same instant; in switch scenarios the verdict may rest only on database versions live within CacheTime. non-trivial = check answered wholly or partly from the cache (fewer prefixes asked than a fresh Checker asks). Stateless part: non-trivial = blocked verdict or >= 2 prefixes sent",
+				"rule":                          "BFS over check(name)/advance-clock(/switch-database) histories on one real hashprefix.Checker per history, scripted recording upstream; state = (scenario, reflection dump of the prefix cache with expiry relative to the virtual clock, LRU order when the cache is size-limited, live database versions in switch scenarios). Every check: question = 4-hex groups + suffix, each group the 2-byte prefix of an allowed suffix-name; verdict = reference (64-hex strings of the database intersected with the allowed names) = verdict of a fresh Checker on the same database at the same instant; in switch scenarios the verdict may rest only on database versions live within CacheTime. non-trivial = check answered wholly or partly from the cache (fewer prefixes asked than a fresh Checker asks). Stateless part: non-trivial = blocked verdict or >= 2 prefixes sent",
 			}
 		},
 		Assumptions: []string{
